@@ -9,6 +9,7 @@ import (
 	"math/rand/v2"
 	"net"
 	"reflect"
+	"slices"
 	"strings"
 	"testing"
 	"testing/synctest"
@@ -158,6 +159,14 @@ func c19Run(f []string) []string {
 		return []string{"ok"}
 	case "C19.sleep":
 		time.Sleep(time.Duration(vutil.Atoi(f[1])))
+
+		return []string{"ok"}
+	case "C19.setdb":
+		// the lookup service's database changes
+		c19U.db = nil
+		for i, n := 0, vutil.Atoi(f[1]); i < n; i++ {
+			c19U.db = append(c19U.db, c19Hash(f[2+i]))
+		}
 
 		return []string{"ok"}
 	case "C19.check":
@@ -368,11 +377,54 @@ func c19Gen(r *rand.Rand, emit vutil.Emit) {
 		}
 		emit(f...)
 
+		// model time and, per prefix, the latest time a cache item written so
+		// far can still be live: the database may change for a prefix only
+		// after that (the property's "until the entry expires")
+		now := 0
+		liveUntil := map[[2]byte]int{}
+
 		sleeps := []int{0, 1, 499_999_999, 500_000_000, 999_999_999, 1_000_000_000, 1_000_000_001, 1_500_000_000,
 			ttl, ttl + 1, ttl + 999_999_999, ttl + 1_000_000_000, max(ttl-1, 0), max(ttl-1_000_000_000, 0), ttl / 2}
 		for i, n := 0, 10+r.IntN(25); i < n; i++ {
 			if r.IntN(100) < 22 {
-				emit("C19.sleep", vutil.Itoa(vutil.Pick(r, sleeps)))
+				d := vutil.Pick(r, sleeps)
+				now += d
+				emit("C19.sleep", vutil.Itoa(d))
+
+				continue
+			}
+			if r.IntN(100) < 9 {
+				if r.IntN(2) == 0 {
+					d := ttl + 1 + r.IntN(2)*1_000_000_000
+					now += d
+					emit("C19.sleep", vutil.Itoa(d))
+				}
+				// toggle hashes of names of the working set whose prefix has
+				// no live item
+				changed := false
+				for k, m := 0, 1+r.IntN(3); k < m; k++ {
+					subs := c19Subs(vutil.Pick(r, hosts))
+					if len(subs) == 0 {
+						continue
+					}
+					x := hostnameHash(sha256.Sum256([]byte(vutil.Pick(r, subs))))
+					if lu, ok := liveUntil[[2]byte{x[0], x[1]}]; ok && now <= lu {
+						continue
+					}
+					changed = true
+					if j := slices.Index(db, x); j >= 0 {
+						db = slices.DeleteFunc(db, func(y hostnameHash) bool { return y == x })
+					} else {
+						db = append(db, x)
+					}
+				}
+				if changed {
+					f = []string{"C19.setdb", vutil.Itoa(len(db))}
+					for _, h := range db {
+						f = append(f, hex.EncodeToString(h[:]))
+					}
+					emit(f...)
+				}
 
 				continue
 			}
@@ -387,6 +439,8 @@ func c19Gen(r *rand.Rand, emit vutil.Emit) {
 			for _, s := range subs {
 				h := sha256.Sum256([]byte(s))
 				f = append(f, vutil.Hex(s), hex.EncodeToString(h[:]))
+				p := [2]byte{h[0], h[1]}
+				liveUntil[p] = max(liveUntil[p], now+ttl)
 			}
 			nj := 0
 			if r.IntN(3) == 0 {
